@@ -350,21 +350,24 @@ AngleExprs ==
      : Usable(e)}
 \* every angle expression on one representative of each way an angle reaches an operation:
 \* RotationCompiler (rz, crz), float(angle) for qsystem (qrz, zz_phase, both slots of phased_x)
-ExprOps(forms) ==
+ExprOps(forms, all) ==
     {Op("rz", <<0>>, <<e>>, f) : e \in AngleExprs, f \in forms}
     \cup {Op("crz", <<1, 0>>, <<e>>, f) : e \in AngleExprs, f \in forms}
     \cup {Op("qrz", <<1>>, <<e>>, f) : e \in AngleExprs, f \in forms}
-    \cup {Op("zz_phase", <<0, 1>>, <<e>>, f) : e \in AngleExprs, f \in forms}
-    \cup {Op("phased_x", <<0>>, <<e, Lit(1)>>, f) : e \in AngleExprs, f \in forms}
-    \cup {Op("phased_x", <<1>>, <<Lit(2), e>>, f) : e \in AngleExprs, f \in forms}
+    \cup (IF all THEN
+            {Op("zz_phase", <<0, 1>>, <<e>>, f) : e \in AngleExprs, f \in forms}
+            \cup {Op("phased_x", <<0>>, <<e, Lit(1)>>, f) : e \in AngleExprs, f \in forms}
+            \cup {Op("phased_x", <<1>>, <<Lit(2), e>>, f) : e \in AngleExprs, f \in forms}
+          ELSE {})
 
 MeasOps(forms) == {MOp(g, q, f, b) : g \in MeasNames, q \in Qubits, f \in forms, b \in {0, 1}}
 
-\* preparation prefixes: |0..0>, a product of pairwise different generic one-qubit states,
-\* and the same entangled
+\* preparation prefixes: |0..0>, a product of pairwise different generic one-qubit states
+\* (Bloch vectors off every rotation axis of the gate set: not on X, Y, Z, the H axis or an
+\* equatorial axis at a multiple of pi/4), and the same entangled
 PrepProduct == << Op("ry", <<0>>, <<Lit(1)>>, "p"), Op("s", <<0>>, <<>>, "p") >>
-               \o (IF NQ >= 2 THEN << Op("ry", <<1>>, <<Lit(2)>>, "p"), Op("t", <<1>>, <<>>, "p") >> ELSE <<>>)
-               \o (IF NQ >= 3 THEN << Op("ry", <<2>>, <<Lit(3)>>, "p"), Op("tdg", <<2>>, <<>>, "p") >> ELSE <<>>)
+               \o (IF NQ >= 2 THEN << Op("ry", <<1>>, <<Lit(3)>>, "p"), Op("t", <<1>>, <<>>, "p") >> ELSE <<>>)
+               \o (IF NQ >= 3 THEN << Op("ry", <<2>>, <<Lit(3)>>, "p"), Op("sdg", <<2>>, <<>>, "p") >> ELSE <<>>)
 PrepEntangled == PrepProduct
                \o (IF NQ >= 2 THEN << Op("cx", <<0, 1>>, <<>>, "p") >> ELSE <<>>)
                \o (IF NQ >= 3 THEN << Op("cx", <<1, 2>>, <<>>, "p"), Op("ry", <<0>>, <<Lit(1)>>, "p"), Op("cx", <<2, 0>>, <<>>, "p") >> ELSE <<>>)
